@@ -175,8 +175,8 @@ class VmTuple(TlbScheme):
         if len(values) == 0:
             return Cell.empty()
         builder = Builder()
-        value = values.pop()
-        builder.store_cell(VmTupleRef.serialize(values))
+        value = values[-1]  # the caller's tuple is left as it is
+        builder.store_cell(VmTupleRef.serialize(VmTuple(values.list[:-1])))
         builder.store_ref(VmStackValue.serialize(value))
         return builder.end_cell()
 
